@@ -229,6 +229,10 @@ fn base_to_sig(c: char) -> signature::Base {
 
 /// Build the Param tree for (ty, v). Descriptors: `fds[idx]` is used for an 'h' with value idx.
 /// Returns None if the value cannot be expressed as a Param (never for generated values).
+thread_local! {
+    static REF_TOGGLE: std::cell::Cell<bool> = const { std::cell::Cell::new(false) };
+}
+
 pub fn to_param(ty: &Ty, v: &Val, fds: &[rustbus::wire::UnixFd]) -> Option<Param<'static, 'static>> {
     Some(match (ty, v) {
         (Ty::Base(c), Val::Num(n)) => Param::Base(match c {
@@ -246,12 +250,29 @@ pub fn to_param(ty: &Ty, v: &Val, fds: &[rustbus::wire::UnixFd]) -> Option<Param
         }),
         (Ty::Base(c), Val::Str(b)) => {
             let s = String::from_utf8(b.clone()).ok()?;
-            Param::Base(match c {
-                's' => Base::String(s),
-                'o' => Base::ObjectPath(s),
-                'g' => Base::Signature(s),
-                _ => return None,
-            })
+            // the old Param API has an owned and a borrowed variant of every string-like: use them alternately (the
+            // borrowed text is leaked: these are test values)
+            let borrowed = REF_TOGGLE.with(|t| {
+                let v = t.get();
+                t.set(!v);
+                v
+            });
+            if borrowed {
+                let r: &'static str = Box::leak(s.into_boxed_str());
+                Param::Base(match c {
+                    's' => Base::StringRef(r),
+                    'o' => Base::ObjectPathRef(r),
+                    'g' => Base::SignatureRef(r),
+                    _ => return None,
+                })
+            } else {
+                Param::Base(match c {
+                    's' => Base::String(s),
+                    'o' => Base::ObjectPath(s),
+                    'g' => Base::Signature(s),
+                    _ => return None,
+                })
+            }
         }
         (Ty::Array(e), Val::Arr(vs)) => {
             let mut values = Vec::new();
